@@ -39,13 +39,13 @@ Definition read_fixed_unchecked (t : ty) (bs : list N) : dres val :=
   end.
 
 Definition read_fixed_checked (t : ty) (bs : list N) : dres val :=
-  if len bs <? fixed_size t then DErr EShort else read_fixed_unchecked t bs.
+  if short bs (fixed_size t) then DErr EShort else read_fixed_unchecked t bs.
 
 Definition wrap_ptr (t : ty) (v : val) : val := if is_ptr t then VP (Some v) else v.
 
 (* STRING / binary: decodeType case tSTRING and decodeStringNoCopy make the same checks *)
 Definition dec_string (bs : list N) : dres val :=
-  if len bs <? strHeaderLen then DErr EShort
+  if short bs (strHeaderLen) then DErr EShort
   else
     match take 4 bs with
     | None => DPanic
@@ -53,7 +53,7 @@ Definition dec_string (bs : list N) : dres val :=
         let l := be_get h in
         if neg32 l then DErr ENegSize
         else if l =? 0 then DOk (VB false []) r
-        else if len r <? l then DErr ESizeExceeds
+        else if short r (l) then DErr ESizeExceeds
         else match take l r with
              | Some (s, r') => DOk (VB false s) r'
              | None => DPanic
@@ -97,7 +97,7 @@ Section WithEnv.
       end.
 
     Definition dec_list (e : ty) (bs : list N) : dres val :=
-      if len bs <? listHeaderLen then DErr EShort
+      if short bs (listHeaderLen) then DErr EShort
       else
         match bs with
         | tp :: r =>
@@ -109,7 +109,7 @@ Section WithEnv.
                 else if negb (wt e =? tp) then DErr ETypeMismatch
                 else if l =? 0 then DOk (VL (Some [])) r1
                 else if min_wire (wt e) =? 0 then DPanic
-                else if len r1 / min_wire (wt e) <? l then DErr ESizeExceeds
+                else if short r1 (l * min_wire (wt e)) then DErr ESizeExceeds   (* l > remain / min: lemma count_check_spec *)
                 else match dec_list_elems (N.to_nat l) e r1 with
                      | DOk xs r' => DOk (VL (Some xs)) r'
                      | DErr er => DErr er | DPanic => DPanic | DFuel => DFuel
@@ -144,7 +144,7 @@ Section WithEnv.
       end.
 
     Definition dec_map (kt vt : ty) (bs : list N) : dres val :=
-      if len bs <? mapHeaderLen then DErr EShort
+      if short bs (mapHeaderLen) then DErr EShort
       else
         match bs with
         | t0 :: t1 :: r =>
@@ -155,7 +155,7 @@ Section WithEnv.
                 if neg32 l then DErr ENegSize
                 else if negb ((t0 =? wt kt) && (t1 =? wt vt)) then DErr ETypeMismatch
                 else if min_wire (wt kt) + min_wire (wt vt) =? 0 then DPanic
-                else if len r1 / (min_wire (wt kt) + min_wire (wt vt)) <? l then DErr ESizeExceeds
+                else if short r1 (l * (min_wire (wt kt) + min_wire (wt vt))) then DErr ESizeExceeds
                 else match dec_map_entries (N.to_nat l) kt vt r1 [] with
                      | DOk m r' => DOk (VM (Some m)) r'
                      | DErr er => DErr er | DPanic => DPanic | DFuel => DFuel
@@ -176,7 +176,7 @@ Section WithEnv.
           | [] => DErr EShort
           | tp :: r =>
               if tp =? tSTOP then DOk (cur, seen, unk) r
-              else if len r <? 2 then DErr EShort
+              else if short r (2) then DErr EShort
               else
                 match take 2 r with
                 | None => DPanic
